@@ -1,7 +1,8 @@
 (* C02 -- every selected test runs exactly once per repetition; selection follows the filters; reversing and shuffling
    only permute the order.  Only statements; every proof is `exact <lemma>` into C02_Proofs.v. *)
 From Coq Require Import NArith Arith Bool List Permutation.
-From CppUVerif Require Import lib.Str C02_Model C02_Proofs.
+From CppUVerif Require Import lib.Str lib.CSem gen.Gen_LeafC02 C02_Model C02_Proofs.
+From CppUVerif Require C02_LeafTie.
 Import ListNotations.
 Local Open Scope N_scope.
 
@@ -104,3 +105,10 @@ Print Assumptions C02_word_shape_sound.
 Theorem C02_is_perm_sound : forall n ord, is_perm_ids n ord = true -> Permutation ord (seq 0 n).
 Proof. exact is_perm_ids_sound. Qed.
 Print Assumptions C02_is_perm_sound.
+
+(* the filter semantics of the oracle IS the source: TestFilter::match as regenerated by tools/cxx2coq.py from clang's AST of
+   TestFilter.cpp on every run (gen/Gen_LeafC02.v), with == / contains read as the textbook functions of lib/Str.v *)
+Theorem C02_filter_match_is_the_source : forall f x,
+  leaf_filter_match x (b2z (f_strict f)) (f_pat f) (b2z (f_invert f)) = b2z (accepts f x).
+Proof. exact C02_LeafTie.C02_filter_match_is_the_source. Qed.
+Print Assumptions C02_filter_match_is_the_source.
